@@ -1043,8 +1043,10 @@ unsigned int CppCheck::checkInternal(const FileWithDetails& file, const std::str
         if (analyzerInformation) {
             // Calculate hash so it can be compared with old hash / future hashes
             const std::size_t hash = calculateHash(preprocessor, file.spath());
+            // the headers of computed includes (#include MACRO) are not known yet so the hash does not cover them - analyze such a file again
+            const bool reuse = !preprocessor.hasComputedIncludes();
             std::list<ErrorMessage> errors;
-            if (!analyzerInformation->analyzeFile(mSettings.buildDir, file.spath(), cfgname, file.fsFileId(), hash, errors, mSettings.debugainfo)) {
+            if (!analyzerInformation->analyzeFile(mSettings.buildDir, file.spath(), cfgname, file.fsFileId(), hash, errors, mSettings.debugainfo, reuse)) {
                 while (!errors.empty()) {
                     mErrorLogger.reportErr(errors.front());
                     errors.pop_front();
